@@ -11,6 +11,7 @@ import DsdVerif.Gen.Grammars
 import DsdVerif.Model.Kernel
 import DsdVerif.Model.Reader
 import DsdVerif.Gen.PyFuncs
+import DsdVerif.Gen.PyIupac
 import DsdVerif.Model.Dlc
 
 namespace Dsd.Driver
@@ -192,6 +193,54 @@ def step (line : String) : String :=
       | .error e => showErr e
       | .ok rs => "ok " ++ " ; ".intercalate (rs.map (fun r =>
           "|".intercalate (r.1.map String.join) ++ " / " ++ showPt r.2 ++ " / " ++ String.ofList (ptToDb r.2)))
+  -- the rest of complex_utils.py and the sequence-level functions of iupac_utils.py, TRANSLATED from the source text
+  | ["pystab", seq, brk] =>
+    match Gen.py_make_strand_table_list (words seq) brk with
+    | .ok t => "ok " ++ "|".intercalate (t.map showNames)
+    | .error e => showErr e
+  | ["pystseq", st, brk] =>
+    let tab := if st == "" then [] else (st.splitOn "|").map words
+    match Gen.py_strand_table_to_sequence_list tab brk with
+    | .ok l => "ok " ++ showNames l
+    | .error e => showErr e
+  | ["pystab.str", seq, brk] =>
+    match Gen.py_make_strand_table_str seq.toList (firstChar brk) with
+    | .ok t => "ok " ++ "|".intercalate (t.map String.ofList)
+    | .error e => showErr e
+  | ["pysts", seq, brk] =>
+    -- strand_table_to_sequence(make_strand_table(seq), brk, join=False)
+    match Gen.py_strand_table_to_sequence_list (makeStrandTableList "+" (words seq)) brk with
+    | .ok l => "ok " ++ showNames l
+    | .error e => showErr e
+  | ["pysts.str", seq, brk] =>
+    match Gen.py_strand_table_to_sequence_str (makeStrandTableStr '+' seq.toList) (firstChar brk) with
+    | .ok l => "ok " ++ String.ofList l
+    | .error e => showErr e
+  | ["pysplitdb", seq, ss] =>
+    match Gen.py_split_complex_db (ss.length + 2) (words seq) ss.toList with
+    | .ok parts => "ok " ++ " ; ".intercalate (parts.map (fun p => showNames p.1 ++ " / " ++ String.ofList p.2))
+    | .error e => showErr e
+  | ["pyrotdb", seq, ss] =>
+    match Gen.py_rotate_complex_db (ss.length + 2) (words seq) ss.toList none with
+    | .ok parts => "ok " ++ " ; ".intercalate (parts.map (fun p => showNames p.1 ++ " / " ++ String.ofList p.2))
+    | .error e => showErr e
+  | ["pyiupac.map", fn, mat, seq] =>
+    let r := match fn with
+      | "complement" => some (Gen.py_complement seq.toList mat)
+      | "wc" => some (Gen.py_wc_complement seq.toList mat)
+      | "rcomplement" => some (Gen.py_reverse_complement seq.toList mat)
+      | "rwc" => some (Gen.py_reverse_wc_complement seq.toList mat)
+      | _ => none
+    match r with
+    | none => "bad-op"
+    | some (.ok o) => "ok " ++ String.ofList o
+    | some (.error (.fault k)) => "err " ++ k
+    | some (.error e) => showErr e
+  | ["pyiupac.add", mat, s1, s2] =>
+    match Gen.py_add_constraints s1.toList s2.toList mat with
+    | .ok c => "ok " ++ String.ofList c
+    | .error (.fault k) => "err " ++ k
+    | .error e => showErr e
   | ["dlc", seq, ss] =>
     -- ComplexS.is_domainlevel_complement; every domain has length 5 in this stream
     match makePairTable ss.toList with
